@@ -1,48 +1,50 @@
 ----------------------------- MODULE SelectionMC -----------------------------
 (* Design-level checks of Selection.tla over small bounds:                    *)
 (*  - for every lower set of tensors the combination weights sum to one, the  *)
-(*    active tensors are exactly the ones with a non-zero weight, and the     *)
-(*    declared polynomial space is the union of the tensor boxes;             *)
+(*    maximal tensors carry weight one, and the declared polynomial space is  *)
+(*    the union of the tensor boxes;                                          *)
 (*  - every selection (type, depth, anisotropic weights, level limits, rule   *)
-(*    exactness) is a lower set that obeys the limits, -1 meaning free.       *)
+(*    exactness) is a lower set that obeys the limits (-1 = free), contains   *)
+(*    the origin and grows with the depth.                                    *)
+(* A state is either a lower set (mode "T") or a selection request (mode "S").*)
 EXTENDS Selection
 
 CONSTANTS DIMS, MAXIDX, MAXDEPTH
 
-VARIABLES T, sel
+VARIABLES T, sel, mode
 
 LowerSets == {S \in SUBSET Cube(DIMS, MAXIDX) : S # {} /\ IsLower(S)}
 
 Rules == {"clenshaw-curtis", "leja", "rleja-odd", "gauss-legendre", "gauss-patterson", "fourier"}
-Fams(rule) == IF rule = "fourier" THEN {"fourier"} ELSE IF rule = "leja" THEN {"global", "sequence"} ELSE {"global"}
+FamOf(rule) == IF rule = "fourier" THEN "fourier" ELSE "global"
 WeightChoices(type) == IF type \in CurvedTypes THEN {<<>>, [j \in 1..(2 * DIMS) |-> IF j <= DIMS THEN j ELSE 1], [j \in 1..(2 * DIMS) |-> IF j <= DIMS THEN 2 ELSE 0]}
                        ELSE IF type \in HyperbolicTypes THEN {<<>>, [j \in 1..DIMS |-> 2]}
                        ELSE {<<>>, [j \in 1..DIMS |-> j], [j \in 1..DIMS |-> 3 - (j % 2)]}
 LimitChoices == {<<>>, [j \in 1..DIMS |-> IF j = 1 THEN -1 ELSE 1], [j \in 1..DIMS |-> IF j = 1 THEN 0 ELSE 2], [j \in 1..DIMS |-> 1]}
 
-Selections == [rule : Rules, type : AllTypes, depth : 0..MAXDEPTH, lim : LimitChoices, wi : 1..3]
+Selections == UNION {{[rule |-> r, type |-> t, depth |-> dp, lim |-> l, aw |-> w] : r \in Rules, dp \in 0..MAXDEPTH, l \in LimitChoices, w \in WeightChoices(t)} : t \in AllTypes}
+Dummy == [rule |-> "leja", type |-> "level", depth |-> 0, lim |-> <<>>, aw |-> <<>>]
+Origin == [j \in 1..DIMS |-> 0]
 
-Init == T \in LowerSets /\ sel \in Selections
-Next == UNCHANGED <<T, sel>>
-Spec == Init /\ [][Next]_<<T, sel>>
+Init == \/ mode = "T" /\ T \in LowerSets /\ sel = Dummy
+        \/ mode = "S" /\ sel \in Selections /\ T = {Origin}
+Next == UNCHANGED <<T, sel, mode>>
+Spec == Init /\ [][Next]_<<T, sel, mode>>
 
-\* one selection per state (the pair <<T, sel>> only serves to enumerate both families of checks)
-SelOf(s) == LET fam == CHOOSE f \in Fams(s.rule) : TRUE
-                W == WeightChoices(s.type)
-                aw == CHOOSE w \in W : Cardinality({v \in W : Len(v) < Len(w) \/ (Len(v) = Len(w) /\ v # w /\ \E k \in 1..Len(v) : v[k] < w[k] /\ \A m \in 1..(k-1) : v[m] = w[m])}) = (s.wi - 1) % Cardinality(W)
-            IN SelectTensors(fam, s.rule, DIMS, s.depth, s.type, aw, s.lim)
+SelOf(s) == SelectTensors(FamOf(s.rule), s.rule, DIMS, s.depth, s.type, s.aw, s.lim)
+\* sequence grids select with their own exactness as well
+SelSeq(s) == IF s.rule = "leja" THEN SelectTensors("sequence", s.rule, DIMS, s.depth, s.type, s.aw, s.lim) ELSE {Origin}
 
-SumWeights(S) == LET RECURSIVE Acc(_)
-                     Acc(R) == IF R = {} THEN 0 ELSE LET t == CHOOSE x \in R : TRUE IN TensorWeight(S, t) + Acc(R \ {t})
-                 IN Acc(S)
+RECURSIVE SumW(_, _)
+SumW(S, R) == IF R = {} THEN 0 ELSE LET t == CHOOSE x \in R : TRUE IN TensorWeight(S, t) + SumW(S, R \ {t})
 
-WeightsSumToOne == SumWeights(T) = 1
-ActiveAreNonZero == ActiveTensors(T) = {t \in T : TensorWeight(T, t) # 0} /\ ActiveTensors(T) # {}
-\* the maximal tensors are active with weight one
-MaximalActive == \A t \in T : (\A q \in T : LeqAll(t, q) => q = t) => TensorWeight(T, t) = 1
-SpaceIsUnionOfBoxes == \A interp \in BOOLEAN :
+WeightsSumToOne == mode = "T" => SumW(T, T) = 1
+MaximalActive == mode = "T" => \A t \in T : (\A q \in T : LeqAll(t, q) => q = t) => TensorWeight(T, t) = 1
+ActiveNonEmpty == mode = "T" => ActiveTensors(T) # {} /\ ActiveTensors(T) \subseteq T
+SpaceIsUnionOfBoxes == mode = "T" => \A interp \in BOOLEAN :
     PolySpace("global", "clenshaw-curtis", T, DIMS, interp) = UNION {PolySpace("global", "clenshaw-curtis", {t}, DIMS, interp) : t \in T}
-SelectionIsLower == IsLower(SelOf(sel))
-SelectionWithinLimits == \A t \in SelOf(sel) : WithinLimits(t, sel.lim)
-SelectionHasOrigin == [j \in 1..DIMS |-> 0] \in SelOf(sel)
+SelectionIsLower == mode = "S" => IsLower(SelOf(sel)) /\ IsLower(SelSeq(sel))
+SelectionWithinLimits == mode = "S" => \A t \in SelOf(sel) \cup SelSeq(sel) : t = Origin \/ WithinLimits(t, sel.lim)
+SelectionHasOrigin == mode = "S" => Origin \in SelOf(sel)
+SelectionMonotone == (mode = "S" /\ sel.depth > 0) => SelOf([sel EXCEPT !.depth = sel.depth - 1]) \subseteq SelOf(sel)
 =============================================================================
